@@ -1218,7 +1218,6 @@ func emitCase(r *hx.Run, sub uint64, ops []string, res *caseResult) {
 		for ; nf < len(res.fails) && res.fails[nf].at == i; nf++ {
 			fl := res.fails[nf]
 			r.Fail(fl.oracle, fl.detail+fmt.Sprintf("; history (%d requests): %v", i+1, r.CaseLines()), fl.sig)
-			r.Count("finding:" + fl.oracle)
 		}
 		if out.traced {
 			r.CountN("traced-events", out.nEvents)
